@@ -190,7 +190,8 @@ CHECKS["C16"] = {
     "text": "Sender.tla models the socket sender's Run / innerRun / cleanup label by label (with the variables sink, streamCancel, stream, "
             "errs kept by name), composed with the CompletionProp monitor: TLC checks every interleaving of 3-4 streams, 2 streams per "
             "connection and <= 4 faults, and refutes the code as found (nil dereference; overwritten stream never answered). "
-            "TLC-generated fault schedules drive the real sender and 12 real backend variants over in-memory transports under virtual "
+            "TLC-generated fault schedules drive the real sender and 13 real backend variants (otlp also with the retry budget alone, "
+            "max_request_elapsed_time 0) over in-memory transports under virtual "
             "time; TLC validates the traces: one callback per request, with an error whenever a batch did not get through, no panic, "
             "answered by the end of the retry window, and a further request with a fresh context is answered after recovery.",
     "design_ref": "6/C16",
@@ -216,7 +217,10 @@ CHECKS["C20"] = {
             "notification channel, the consolidator hand-over and the forwarder's attempt / back-off / give-up loop followed by the "
             "notification, composed with the LambdaProp monitor (no next request before the runtime-done signal, before every due datapoint "
             "has an answered upstream request, or while one is in flight; no delivery after the next request; first request and progress; "
-            "init-error reported); TLC checks all interleavings and refutes three deviations. TLC-generated invocation histories drive the "
+            "init-error reported); the server's start-up racing the heartbeat's first flush is part of the model (finding 18: the code as found "
+            "violates NoStall); TLC checks all interleavings and refutes five deviations. TLC-generated invocation histories (with the server's "
+            "start-up delay, the runtime's delay in answering the telemetry subscription, the number of consolidator slots and a large "
+            "dispatch in progress at the runtime-done signal as dimensions) drive the "
             "real pkg/lambda extension around a real forwarder-mode server on loopback sockets against a fake runtime API and a fake "
             "upstream (refusing, dropping, slow, given up); TLC validates the observed request order.",
     "design_ref": "6/C20",
